@@ -1,6 +1,8 @@
 import DilithiumVerif.Impl.Api
 import DilithiumVerif.Lemmas.Basic
 import DilithiumVerif.Lemmas.IterComplete
+import DilithiumVerif.Lemmas.SignLoop
+import DilithiumVerif.Lemmas.EndToEnd
 /-
   C01 — Every signature the library produces verifies (all sets, all modes).
   Part 1 (loop logic): the signing loop can end only by returning the signature packed by an accepted
@@ -11,68 +13,19 @@ import DilithiumVerif.Lemmas.IterComplete
 namespace DV.C01
 open DV
 
-def accepted : IterResult → Option (List Nat)
-  | .accept s => some s
-  | _ => none
-
 /-- `sign_loop` from nonce κ₀ with fuel n returns `some σ` iff some iteration κ₀+j (j < n) is accepted, all earlier
     ones are rejected (without fault), and σ is that iteration's output -/
-theorem sign_loop_some (p : Params) (mat : List PolyVec) (mu rp : List Nat) (s1h s2h t0h : PolyVec) :
-    ∀ (fuel : Nat) (k0 : Int) (sig : List Nat),
-      sign_loop p mat mu rp s1h s2h t0h fuel k0 = .ok (some sig) →
-      ∃ j, j < fuel ∧ sign_iteration p mat mu rp s1h s2h t0h (k0 + j) = .ok (.accept sig) ∧
-        ∀ i, i < j → ∃ r, sign_iteration p mat mu rp s1h s2h t0h (k0 + i) = .ok r ∧ accepted r = none := by
-  intro fuel
-  induction fuel with
-  | zero => intro k0 sig h; simp [sign_loop] at h
-  | succ n ih =>
-    intro k0 sig h
-    unfold sign_loop at h
-    obtain ⟨r, hr, h⟩ := bind_eq_ok.mp h
-    cases r with
-    | accept s =>
-      simp only at h; injection h with h; injection h with h; subst h
-      exact ⟨0, by omega, by simpa using hr, by intro i hi; omega⟩
-    | rejZ | rejR0 | rejCt0 | rejHint =>
-      simp only at h
-      obtain ⟨j, hj, hacc, hrej⟩ := ih (k0 + 1) sig h
-      refine ⟨j + 1, by omega, ?_, ?_⟩
-      · have : k0 + ((j + 1 : Nat) : Int) = k0 + 1 + (j : Int) := by omega
-        rw [this]; exact hacc
-      · intro i hi
-        cases i with
-        | zero => exact ⟨_, by simpa using hr, rfl⟩
-        | succ i' =>
-          obtain ⟨r', h1, h2⟩ := hrej i' (by omega)
-          have : k0 + ((i' + 1 : Nat) : Int) = k0 + 1 + (i' : Int) := by omega
-          exact ⟨r', by rw [this]; exact h1, h2⟩
+theorem loop_returns_first_accepted (p : Params) (mat : List PolyVec) (mu rp : List Nat) (s1h s2h t0h : PolyVec)
+    (fuel : Nat) (k0 : Int) (sig : List Nat) (h : sign_loop p mat mu rp s1h s2h t0h fuel k0 = .ok (some sig)) :
+    ∃ j, j < fuel ∧ sign_iteration p mat mu rp s1h s2h t0h (k0 + j) = .ok (.accept sig) ∧
+      ∀ i, i < j → ∃ r, sign_iteration p mat mu rp s1h s2h t0h (k0 + i) = .ok r ∧ accepted r = none :=
+  sign_loop_some p mat mu rp s1h s2h t0h fuel k0 sig h
 
 /-- with fuel n the loop gives up (`none`) only if all n iterations were rejected -/
-theorem sign_loop_none (p : Params) (mat : List PolyVec) (mu rp : List Nat) (s1h s2h t0h : PolyVec) :
-    ∀ (fuel : Nat) (k0 : Int),
-      sign_loop p mat mu rp s1h s2h t0h fuel k0 = .ok none →
-      ∀ i, i < fuel → ∃ r, sign_iteration p mat mu rp s1h s2h t0h (k0 + i) = .ok r ∧ accepted r = none := by
-  intro fuel
-  induction fuel with
-  | zero => intro k0 _ i hi; omega
-  | succ n ih =>
-    intro k0 h i hi
-    unfold sign_loop at h
-    obtain ⟨r, hr, h⟩ := bind_eq_ok.mp h
-    cases r with
-    | accept s => simp at h
-    | rejZ | rejR0 | rejCt0 | rejHint =>
-      simp only at h
-      cases i with
-      | zero => exact ⟨_, by simpa using hr, rfl⟩
-      | succ i' =>
-        obtain ⟨r', h1, h2⟩ := ih (k0 + 1) h i' (by omega)
-        have : k0 + ((i' + 1 : Nat) : Int) = k0 + 1 + (i' : Int) := by omega
-        exact ⟨r', by rw [this]; exact h1, h2⟩
-
-/-- an accepted iteration passed all four rejection tests, in the order of the code -/
-theorem iteration_accept_only_after_checks (r : IterResult) (s : List Nat) (h : accepted r = some s) : r = .accept s := by
-  cases r <;> simp [accepted] at h; subst h; rfl
+theorem loop_gives_up_only_after_rejections (p : Params) (mat : List PolyVec) (mu rp : List Nat) (s1h s2h t0h : PolyVec)
+    (fuel : Nat) (k0 : Int) (h : sign_loop p mat mu rp s1h s2h t0h fuel k0 = .ok none) :
+    ∀ i, i < fuel → ∃ r, sign_iteration p mat mu rp s1h s2h t0h (k0 + i) = .ok r ∧ accepted r = none :=
+  sign_loop_none p mat mu rp s1h s2h t0h fuel k0 h
 
 /-! ## Part 2 (completeness of one iteration — the algebra of the scheme, on the model of the code)
 
@@ -96,8 +49,74 @@ theorem accepted_iteration_verifies (p : Params) (hp : p ∈ allParams) (mat : L
     ∃ ct z h w1, compute_ctilde p mu (k_pack_w1 p.lvl w1) = .ok ct ∧
       pack_sig p (ct ++ List.replicate (p.sigBytes - p.ctilde) 0) none z h = .ok sig ∧
       z.length = p.l ∧ (∀ a ∈ z, a.length = 256 ∧ ∀ x ∈ a, -((p.gamma1 : Int) - p.beta) < x ∧ x < (p.gamma1 : Int) - p.beta) ∧
+      h.length = p.k ∧ (∀ a ∈ h, HintCodec.Bits a) ∧ (HintCodec.idxOf h).length ≤ p.omega ∧
       ∀ pk rho trh, shake256 CRHBYTES p.trBytes pk p.pkBytes = .ok trh → matrix_expand p FUEL rho = .ok mat →
         verify_tail p pk rho t1 ct z h = .ok (trh, k_pack_w1 p.lvl w1) :=
   iteration_complete p hp mat s1 s2 t1 t0 s1h s2h t0h kf e1 e2 e0 mu rp nonce sig hacc
+
+/-! ## Part 3 (end to end, on the model of the whole crate)
+
+  Container round trips (pk, sk, signature incl. the hint section — Lemmas/Containers, Lemmas/HintCodec), the key relation
+  (C04), the iteration theorem above and the loop logic compose to the statement of the property for the model. -/
+
+open DV.Complete in
+/-- **Every signature produced verifies.** For each of the six parameter sets, any seed — explicit or drawn from the RNG
+    tape —, any message (any length, incl. empty), deterministic or hedged/randomized signing with any RNG tape, and any
+    bound on the number of loop iterations: if `keypair` returned (pk, sk) and `signature` under sk returned `some sig`,
+    then `verify sig msg pk` returns `true` (without fault) and `sig` has exactly SIGNBYTES bytes. -/
+theorem sign_then_verify (p : Params) (hp : p ∈ allParams) (seed : Option (List Nat)) (tape : Tape) (pk sk : List Nat) (tape' : Tape)
+    (hk : keypair p seed tape = .ok (pk, sk, tape'))
+    (fuel : Nat) (msg : List Nat) (randomized : Bool) (tape2 : Tape) (sig : List Nat) (tape3 : Tape)
+    (hs : signature p fuel msg sk randomized tape2 = .ok (some sig, tape3)) :
+    verify p sig msg pk = .ok true ∧ sig.length = p.sigBytes :=
+  Complete.sign_then_verify p hp seed tape pk sk tape' hk fuel msg randomized tape2 sig tape3 hs
+
+/-- ML-DSA entry points, pure mode: every context (≤ 255 bytes, or absent), hedged or deterministic -/
+theorem mldsa_sign_then_verify (p : Params) (hp : p ∈ allParams) (seed : Option (List Nat)) (tape : Tape) (pk sk : List Nat) (tape' : Tape)
+    (hk : keypair p seed tape = .ok (pk, sk, tape'))
+    (fuel : Nat) (msg : List Nat) (ctx : Option (List Nat)) (hedged : Bool) (tape2 : Tape) (sig : List Nat) (tape3 : Tape)
+    (hs : mldsa_sign p fuel sk msg ctx hedged tape2 = .ok (some sig, tape3)) :
+    mldsa_verify p pk msg sig ctx = .ok true := by
+  unfold mldsa_sign at hs
+  unfold mldsa_verify
+  cases hf : frame_pure msg ctx with
+  | none => rw [hf] at hs; simp at hs
+  | some m =>
+    rw [hf] at hs
+    simp only at hs
+    obtain ⟨h1, h2⟩ := sign_then_verify p hp seed tape pk sk tape' hk fuel m hedged tape2 sig tape3 hs
+    rw [if_neg (by rw [h2]; simp)]
+    exact h1
+
+/-- ML-DSA entry points, pre-hash mode (SHA-256 or SHA-512; the digest is computed by the external sha2 crate and
+    enters the model as the parameter `phm` on both sides) -/
+theorem mldsa_prehash_sign_then_verify (p : Params) (hp : p ∈ allParams) (seed : Option (List Nat)) (tape : Tape) (pk sk : List Nat)
+    (tape' : Tape) (hk : keypair p seed tape = .ok (pk, sk, tape'))
+    (fuel : Nat) (phm : List Nat) (ctx : Option (List Nat)) (hedged : Bool) (ph : PH) (tape2 : Tape) (sig : List Nat) (tape3 : Tape)
+    (hs : mldsa_prehash_sign p fuel sk phm ctx hedged ph tape2 = .ok (some sig, tape3)) :
+    mldsa_prehash_verify p pk phm sig ctx ph = .ok true := by
+  unfold mldsa_prehash_sign at hs
+  unfold mldsa_prehash_verify
+  cases hf : frame_prehash phm ctx ph with
+  | none => rw [hf] at hs; simp at hs
+  | some m =>
+    rw [hf] at hs
+    simp only at hs
+    obtain ⟨h1, h2⟩ := sign_then_verify p hp seed tape pk sk tape' hk fuel m hedged tape2 sig tape3 hs
+    rw [if_neg (by rw [h2]; simp)]
+    exact h1
+
+/-- Dilithium entry points -/
+theorem dil_sign_then_verify (p : Params) (hp : p ∈ allParams) (seed : Option (List Nat)) (tape : Tape) (pk sk : List Nat) (tape' : Tape)
+    (hk : keypair p seed tape = .ok (pk, sk, tape')) (fuel : Nat) (msg sig : List Nat)
+    (hs : dil_sign p fuel sk msg = .ok (some sig)) : dil_verify p pk msg sig = .ok true := by
+  unfold dil_sign at hs
+  obtain ⟨⟨r, tp⟩, h1, hs⟩ := bind_eq_ok.mp hs
+  simp only at hs
+  injection hs with hs; subst hs
+  obtain ⟨h1', h2⟩ := sign_then_verify p hp seed tape pk sk tape' hk fuel msg false [] sig tp h1
+  unfold dil_verify
+  rw [if_neg (by rw [h2]; simp)]
+  exact h1'
 
 end DV.C01
